@@ -46,6 +46,13 @@ pub fn run_items(rep: &mut Report, prop: &str, tier: Tier, items: Vec<DxItem>, o
                         it.params, st.executions
                     ));
                 }
+                if it.bound == 0 {
+                    // a B=0 item is one enumerated case of its grid: count it as a distinct case
+                    use std::hash::{Hash, Hasher};
+                    let mut h = std::collections::hash_map::DefaultHasher::new();
+                    it.params.to_string().hash(&mut h);
+                    rep.nontrivial.insert(h.finish());
+                }
                 if it.bound > 0 {
                     rep.sample(json!({"scenario": it.params, "bound": it.bound, "executions": st.executions, "distinct_observations": st.distinct_obs}));
                 }
